@@ -87,11 +87,15 @@ func init() {
 		form := c.Choose(len(words) + 1) // 0 = no word at all (missing-command form)
 		history := c.Deviate(3)          // 0 fresh parser; 1 the parser selected a command before; 2 the hidden marks are set after a first failing parse
 		optv := c.Deviate(3)             // 1: PassAfterNonOption is set; 2: PassDoubleDash is set and the word follows the terminator
+		aliased := c.Deviate(2) == 1     // the first command also answers to the alias "ßß": aliases are no candidates for the suggestion
 		var argv []string
 		word := ""
 		if form > 0 {
 			word = words[form-1]
 			argv = []string{word}
+		}
+		if (optv != 0 || aliased) && !c.Thorough && utf8.RuneCountInString(word) > 2 {
+			c.Skip() // quick: these variants go with the words of up to two characters
 		}
 		if optv == 2 {
 			argv = append([]string{"--"}, argv...)
@@ -101,13 +105,13 @@ func init() {
 			if mask&(1<<uint(i)) == 0 {
 				visible = append(visible, n)
 			}
-			if form > 0 && n == word {
+			if form > 0 && (n == word || (aliased && word == "ßß")) {
 				c.Skip() // the word names a command: not the subject here
 			}
 		}
 		sort.Strings(visible)
 		c.Describe(func() interface{} {
-			return map[string]interface{}{"commands": set, "hidden_mask": mask, "argv": argv, "parser_options": []string{"None", "PassAfterNonOption", "PassDoubleDash"}[optv], "history": []string{"fresh parser", "a command was selected by an earlier parse", "hidden marks set after a first failing parse"}[history]}
+			return map[string]interface{}{"commands": set, "hidden_mask": mask, "argv": argv, "first_command_has_alias_ßß": aliased, "parser_options": []string{"None", "PassAfterNonOption", "PassDoubleDash"}[optv], "history": []string{"fresh parser", "a command was selected by an earlier parse", "hidden marks set after a first failing parse"}[history]}
 		})
 
 		p := flags.NewNamedParser("app", []flags.Options{flags.None, flags.PassAfterNonOption, flags.PassDoubleDash}[optv])
@@ -123,6 +127,10 @@ func init() {
 				return
 			}
 			cmds = append(cmds, cmd)
+			if aliased && i == 0 {
+				cmd.Aliases = []string{"ßß"}
+				c.Hit("aliased")
+			}
 			if history != 2 {
 				cmd.Hidden = mask&(1<<uint(i)) != 0
 			}
@@ -234,7 +242,7 @@ func init() {
 		Body:       body,
 		DevBound:   func(bool) int { return 1 },
 		Rule: "every set of 1..3 command names (all strings of length 1..3 over {q,z,é} and Q, Qz, zQ; thorough adds all of length <= 2 over {q,z,é,j}), every hidden mask, " +
-			"x every word (all strings <= 2 over 7 characters and of length 3 over 4 of them quick / <= 2 over 8 characters and of length 3..4 over 4 of them thorough, drawn from the letters plus the foreign characters ß (2 bytes), € (3 bytes), ũ (2 bytes, same last byte as é) and %, the empty word, and no word at all) x {fresh parser, parser on which an earlier parse selected a command, hidden marks changed after a first diagnosis on the same parser} (or, instead, PassAfterNonOption set / PassDoubleDash set with the word after the terminator: the diagnosis is the same); " +
+			"x every word (all strings <= 2 over 7 characters and of length 3 over 4 of them quick / <= 2 over 8 characters and of length 3..4 over 4 of them thorough, drawn from the letters plus the foreign characters ß (2 bytes), € (3 bytes), ũ (2 bytes, same last byte as é) and %, the empty word, and no word at all) x {fresh parser, parser on which an earlier parse selected a command, hidden marks changed after a first diagnosis on the same parser} (or, instead, the first command given the alias ßß, which is no candidate for a suggestion; or PassAfterNonOption set / PassDoubleDash set with the word after the terminator: the diagnosis is the same); " +
 			"oracle = textbook rune Levenshtein + the < 1/2 rule; distinct = distinct (error type, names mentioned, suggestion?) observations",
 		Assumptions:  []string{"names mentioned by a message are read back as maximal runs of the alphabet letters, which do not occur in the message templates", "ties between nearest names: any minimiser accepted", "threshold accepted with the name length in bytes or in characters"},
 		RequiredHits: []string{"missing-command", "suggestion", "enumeration", "used-parser", "other-option-set"},
